@@ -228,7 +228,7 @@ func runC10(c *core.Ctx) {
 			continue
 		}
 		var below []ssa.CallInstruction
-		for _, ci := range ir.Calls(fn, func(ci ssa.CallInstruction) bool {
+		for _, ci := range ir.CallsThrough(fn, func(ci ssa.CallInstruction) bool {
 			if ci == ssa.CallInstruction(mg) {
 				return false
 			}
@@ -237,7 +237,7 @@ func runC10(c *core.Ctx) {
 			}
 			o := ir.CalleeObj(ci)
 			return o != nil && o.Name() == "Get"
-		}) {
+		}, 2) {
 			below = append(below, ci)
 		}
 		c.Floor("reads of the layer below in "+spec.fn, len(below), 1)
@@ -689,12 +689,50 @@ func runC11(c *core.Ctx) {
 						return false
 					}
 					want, _ := constInt64Val(nv)
-					ex, okx := add.X.(*ssa.Extract)
+					ex, okx := ir.Resolve(add.X).(*ssa.Extract)
 					return k == want && okx && ex.Tuple == ssa.Value(fge) && ex.Index == 0
 				}
-				r := ir.NewReach(fn)
+				// the overwrite block may have been moved into a same-package helper called on the exact edge
+				host, startB := fn, exactEdge.To()
+				countIn := func(h *ssa.Function) int {
+					k := 0
+					for _, b := range h.Blocks {
+						for _, in := range b.Instrs {
+							if isLenStore(in) {
+								k++
+							}
+						}
+					}
+					return k
+				}
+				if countIn(fn) == 0 {
+					for _, b := range fn.Blocks {
+						if !(b == exactEdge.To() || exactEdge.To().Dominates(b)) {
+							continue
+						}
+						for _, in := range b.Instrs {
+							cl, isCl := in.(*ssa.Call)
+							if !isCl {
+								continue
+							}
+							h := cl.Common().StaticCallee()
+							if h == nil || h == fn || len(h.Blocks) == 0 || h.Pkg != fn.Pkg || host != fn {
+								continue
+							}
+							unbind := ir.BindParams(h, cl.Common().Args)
+							if countIn(h) > 0 {
+								host, startB = h, h.Blocks[0]
+								defer unbind()
+								c.Attribute(h, fn)
+							} else {
+								unbind()
+							}
+						}
+					}
+				}
+				r := ir.NewReach(host)
 				n := 0
-				for _, b := range fn.Blocks {
+				for _, b := range host.Blocks {
 					for _, in := range b.Instrs {
 						if isLenStore(in) {
 							r.Barrier[in] = true
@@ -702,9 +740,13 @@ func runC11(c *core.Ctx) {
 						}
 					}
 				}
-				r.RunFromBlock(exactEdge.To())
+				if host == fn {
+					r.RunFromBlock(startB)
+				} else {
+					r.Run(nil)
+				}
 				leak := false
-				for _, b := range fn.Blocks {
+				for _, b := range host.Blocks {
 					if len(b.Instrs) == 0 {
 						continue
 					}
@@ -723,7 +765,7 @@ func runC11(c *core.Ctx) {
 					if !ok || !derivesFromField(ia.X, "nodeData", 0) {
 						return false
 					}
-					ex, okx := ia.Index.(*ssa.Extract)
+					ex, okx := ir.Resolve(ia.Index).(*ssa.Extract)
 					if !okx || ex.Tuple != ssa.Value(fge) || ex.Index != 0 {
 						return false
 					}
@@ -735,10 +777,10 @@ func runC11(c *core.Ctx) {
 					bi, isB := cl.Common().Value.(*ssa.Builtin)
 					return isB && bi.Name() == "len" && derivesFromField(cl.Common().Args[0], "kvData", 0)
 				}
-				r2 := ir.NewReach(fn)
-				pass := ir.PassEdges(fn, relGuard("len(value) != 0", isLenOfParam(valP), isConstInt(0), token.NEQ).G)
+				r2 := ir.NewReach(host)
+				pass := ir.PassEdges(host, relGuard("len(value) != 0", isLenOfParam(valP), isConstInt(0), token.NEQ).G)
 				nOff := 0
-				for _, b := range fn.Blocks {
+				for _, b := range host.Blocks {
 					for _, in := range b.Instrs {
 						if isOffStore(in) {
 							r2.Barrier[in] = true
@@ -748,11 +790,11 @@ func runC11(c *core.Ctx) {
 				}
 				okRe := len(pass) >= 1 && nOff >= 1
 				for _, e := range pass {
-					if !(e.From == exactEdge.To() || exactEdge.To().Dominates(e.From)) {
+					if host == fn && !(e.From == startB || startB.Dominates(e.From)) {
 						continue
 					}
 					r2.RunFromBlock(e.To())
-					for _, b := range fn.Blocks {
+					for _, b := range host.Blocks {
 						if len(b.Instrs) == 0 {
 							continue
 						}
